@@ -51,7 +51,9 @@ def run(ctx):
     ctx.rule('R-CONVCALL', 'convolve_dim applies np.convolve(weights, lane) along the axis (np.correlate mirrors every non-palindromic kernel)')
     cf = ctx.src.mod('core/_functions.py').func('convolve_dim')
     wcf = 'src/PseudoNetCDF/core/_functions.py convolve_dim'
-    lanes = [c for c in ast.walk(cf) if isinstance(c, ast.Call) and (dotted(c.func) or '').split('.')[-1] in ('convolve', 'correlate', 'fftconvolve', 'convolve1d', 'correlate1d')]
+    localdefs = set(x.name for x in ast.walk(cf) if isinstance(x, (ast.FunctionDef, ast.Lambda)) and x is not cf and hasattr(x, 'name'))
+    lanes = [c for c in ast.walk(cf) if isinstance(c, ast.Call) and (dotted(c.func) or '').split('.')[-1] in ('convolve', 'correlate', 'fftconvolve', 'convolve1d', 'correlate1d')
+             and not (isinstance(c.func, ast.Name) and c.func.id in localdefs)]       # a helper defined inside the function is not the library routine of that name
     if not lanes:
         ctx.undec('R-CONVCALL', 'lane function', wcf, 'no convolution call found')
     for c in lanes:
@@ -89,12 +91,17 @@ def run(ctx):
     dkn_idx = None
     idxloop = None
     if not inner and dimsname:
-        # index loop: for I in range(.. len(<dims>) ..): K = <dims>[I]
+        # index loop: for I in range(.. len(<dims>) ..): K = <dims>[I]   (<dims> = any name that holds the variable's dimension names)
+        dimaliases = set([dimsname])
+        for st in vl.body:
+            if isinstance(st, ast.Assign) and isinstance(st.targets[0], ast.Name) and (norm(st.value) in ['%s(%s)' % (f_, a_) for f_ in ('list', 'tuple') for a_ in dimaliases | set(['%s.dimensions' % vname])]
+                                                                                         or norm(st.value) in dimaliases):
+                dimaliases.add(st.targets[0].id)
         for st in iter_stmts(vl.body):
             if isinstance(st, ast.For) and isinstance(st.target, ast.Name) and isinstance(st.iter, ast.Call) and dotted(st.iter.func) in ('range', 'reversed') \
-                    and 'len(%s)' % dimsname in norm(st.iter):
+                    and any('len(%s)' % a_ in norm(st.iter) for a_ in dimaliases):
                 for s2 in st.body:
-                    if isinstance(s2, ast.Assign) and isinstance(s2.targets[0], ast.Name) and norm(s2.value) == '%s[%s]' % (dimsname, st.target.id):
+                    if isinstance(s2, ast.Assign) and isinstance(s2.targets[0], ast.Name) and norm(s2.value) in ['%s[%s]' % (a_, st.target.id) for a_ in dimaliases]:
                         idxloop, dkn_idx = st, s2.targets[0].id
     if idxloop is not None:
         axisvar = idxloop.target.id
